@@ -115,6 +115,11 @@ def cases(ctx):
                         yield {"kind": "result", "role": role, "api": api, "number": number,
                                "bells": [rng.randrange(4) for _ in range(number)], "bases": [rng.randrange(5) for _ in range(number)],
                                "remote": rng.choice(["bob", "charlie"]), "socket": rng.choice([0, 1])}
+                # the application runs on another node than node 0, and the peer IS node 0 (a remote node id of 0 is a value, not "none")
+                if mine():
+                    yield {"kind": "result", "role": role, "api": api, "number": number, "local": rng.choice(["bob", "charlie"]), "remote": "alice",
+                           "bells": [rng.randrange(4) for _ in range(number)], "bases": [rng.randrange(5) for _ in range(number)],
+                           "socket": rng.choice([0, 1])}
                 # the link layer answers with qlink-interface 1.0 objects (its own Bell-state enum; goodness_time = time_of_goodness)
                 if api in ("keep", "keep_with_info", "measure") and mine():
                     yield {"kind": "result", "role": role, "api": api, "number": number, "qlink10": True,
@@ -501,7 +506,7 @@ def _result(ctx, case):
     es = EPRSocket(case["remote"], epr_socket_id=case["socket"], remote_epr_socket_id=case["socket"])
     req = PlannedRequest(role, tp, number, remote=remote, socket=case["socket"], bells=case["bells"], fields=fld)
     link = LinkModel([req], qlink10=bool(case.get("qlink10")))
-    pipe = Pipe(epr_sockets=[es], link=link, max_qubits=5, hardware=case.get("hardware", "generic"))
+    pipe = Pipe(epr_sockets=[es], link=link, max_qubits=5, hardware=case.get("hardware", "generic"), node_name=case.get("local", "alice"))
     qubits, infos, mres = None, None, None
     try:
         with pipe.conn as conn:
